@@ -49,8 +49,62 @@ var (
 	thrBase       = []string{"0", "1", "10", "x2", "max"}
 	aggVals       = []string{"", "distinct", "dropOne", "otherHash", "infinity", "empty", "garbage", "foreign"}
 	riVals        = []string{"", "other/replayed", "other/revoted"}
-	propVals      = []string{"", "j0", "wrongPriority", "subusers+1", "nonMember", "house", "offline", "otherIndexProof"}
+	propVals      = []string{"", "j0", "wrongPriority", "subusers+1", "nonMember", "house", "offline", "otherIndexProof", "borrowedProof"}
 )
+
+// Borrowed credentials: borrower X's precommit entry (X's voter index, X's BLS signature over the right payload,
+// summed into the aggregate) carries the sortition PROOF OF ANOTHER MEMBER Y (the lender) — the very bytes of the
+// proof in Y's genuine vote.  Value "<kind>.<count>@XfromY" (X, Y = positions among the entitled members):
+//
+//	kind   borrowAfter   Y's proof for this (seed, Precommit, round index); X's entry placed after every other entry
+//	                     (so after Y's genuine vote, when the vote subset lists Y)
+//	       borrowBefore  the same, X's entry placed first (before Y's genuine vote)
+//	       borrowStep    Y's proof for the Prevote step of this index (entry last)
+//	       borrowIndex   Y's proof for the next round index (entry last)
+//	count  L  the lender's seat count (what Y's genuine vote declares)
+//	       O  the borrower's own seat count
+//	       R  the seat count Y's VRF output yields with X's stake (what a verifier that took Y's output for X's
+//	          would compute; = L when the stakes are equal)
+//
+// Whether Y's genuine vote is in the list too (borrowed next to the original) or not (borrowed alone) is the vote
+// subset dimension, which the mutation dimension is paired with.
+var (
+	borrowKinds  = []string{"borrowAfter", "borrowBefore"}
+	borrowCounts = []string{"L", "O", "R"}
+	borrowOther  = []string{"borrowStep.R", "borrowIndex.R"}
+)
+
+// borrowVals: every ordered pair (borrower, lender) of entitled members × kinds × counts [firstLastOnly (quick tier):
+// the borrower is the first or the last member, counts L and R, proofs of another step / index from one lender].
+func borrowVals(n int, firstLastOnly bool) []string {
+	var out []string
+	for x := 0; x < n; x++ {
+		if firstLastOnly && x != 0 && x != n-1 {
+			continue
+		}
+		others := 0
+		for y := 0; y < n; y++ {
+			if y == x {
+				continue
+			}
+			for _, k := range borrowKinds {
+				for _, cnt := range borrowCounts {
+					if firstLastOnly && cnt == "O" {
+						continue
+					}
+					out = append(out, fmt.Sprintf("%s.%s@%dfrom%d", k, cnt, x, y))
+				}
+			}
+			if others++; firstLastOnly && others > 1 {
+				continue
+			}
+			for _, k := range borrowOther {
+				out = append(out, fmt.Sprintf("%s@%dfrom%d", k, x, y))
+			}
+		}
+	}
+	return out
+}
 
 func mutVals(n int, firstLastOnly bool) []string {
 	out := []string{""}
@@ -100,6 +154,12 @@ func thrValue(v string, proto uint64) (val uint64, adapt bool) {
 
 // ---- forged header -----------------------------------------------------------
 
+type borrowInfo struct {
+	Borrower, Lender string
+	Votes            uint32 // seats the borrowed entry declares
+	LenderListed     bool
+}
+
 // aggPart is the ground truth of one signature summed into the aggregate.
 type aggPart struct {
 	Signer  string
@@ -129,6 +189,9 @@ type Forged struct {
 	CertSeed    common.Hash           // seed of the certificate look-back header
 	PlantedTC   uint64                // CertValThreshold that look-back header declares
 	Chain       consensus.ChainReader // chain to verify on (nil: the configuration's)
+
+	// borrowed-credential mutations: what the borrower's entry declares and whether the lender's genuine vote is listed too
+	Borrow *borrowInfo
 
 	// look-back dimension
 	LB          *LBSpec
@@ -194,6 +257,35 @@ func (c *Config) findRI(m *Member, th uint64, shift uint32, pred func(*Cred) boo
 	return 0, false
 }
 
+// proposerLender: the proposer credential of the first other entitled member that has a seat at (seed, index) — its
+// genuine proof bytes — re-evaluated with pm's stake (nil: none).
+func (c *Config) proposerLender(pm *Member, ri uint32, th uint64) *Cred {
+	for _, y := range c.Voters {
+		if y == pm {
+			continue
+		}
+		lent := c.Sortition(y, c.LBSeed, ri, ucon.UConStepProposal, th, y.Stake)
+		j := c.Sortition(y, c.LBSeed, ri, ucon.UConStepProposal, th, pm.Stake).J
+		if lent.J >= 1 && j >= 1 {
+			return &Cred{Value: lent.Value, Proof: lent.Proof, J: j}
+		}
+	}
+	return nil
+}
+
+// proposerLenderMember: whose credential proposerLender returns.
+func (c *Config) proposerLenderMember(pm *Member, ri uint32, th uint64) *Member {
+	for _, y := range c.Voters {
+		if y == pm {
+			continue
+		}
+		if c.Sortition(y, c.LBSeed, ri, ucon.UConStepProposal, th, y.Stake).J >= 1 && c.Sortition(y, c.LBSeed, ri, ucon.UConStepProposal, th, pm.Stake).J >= 1 {
+			return y
+		}
+	}
+	return nil
+}
+
 // Build constructs the header named by s.
 func (c *Config) Build(s Spec) (f *Forged, err error) {
 	f = &Forged{Spec: s}
@@ -234,6 +326,7 @@ func (c *Config) build(s Spec, f *Forged) error {
 		cd.ValidatorThreshold, cd.ProposerThreshold, cd.CertValThreshold = tv, tp, tc
 	}}
 	pos := func(cr *Cred) bool { return cr.J >= 1 }
+	var lend *Cred
 	switch s.Prop {
 	case "":
 	case "j0":
@@ -249,6 +342,13 @@ func (c *Config) build(s Spec, f *Forged) error {
 			return nil
 		}
 	case "wrongPriority", "subusers+1":
+	case "borrowedProof":
+		// the honest proposer's block carrying ANOTHER entitled member's proposer credential for this very (seed,
+		// index): that member's proof bytes, seat count and priority as its VRF output yields with the proposer's stake
+		if lend = c.proposerLender(pm, ri, credTP); lend == nil {
+			f.Skip = "no other entitled member has a proposer seat at this round index (with its own and with the proposer's stake)"
+			return nil
+		}
 	case "nonMember":
 		pm = c.Outsider
 		r, ok := c.findRI(pm, cp.ProposerThreshold, 0, pos)
@@ -290,6 +390,9 @@ func (c *Config) build(s Spec, f *Forged) error {
 		credRI = ri + 1
 	}
 	opts.Cred = c.Sortition(pm, c.LBSeed, credRI, ucon.UConStepProposal, credTP, pm.Stake)
+	if lend != nil {
+		opts.Cred = lend
+	}
 	switch s.Prop {
 	case "wrongPriority":
 		p := crypto.Keccak256Hash(ucon.VrfComputePriority(opts.Cred.Value, opts.Cred.J).Bytes())
@@ -325,13 +428,25 @@ func (c *Config) build(s Spec, f *Forged) error {
 	badPay := VotePayload(otherHash, round, voteIndex)
 
 	// ---- vote list -----------------------------------------------------------
-	mutKind, target := s.Mut, -1
+	mutKind, target, lender := s.Mut, -1, -1
 	if i := strings.Index(s.Mut, "@"); i > 0 {
 		mutKind = s.Mut[:i]
-		target, _ = strconv.Atoi(s.Mut[i+1:])
-		if target >= len(c.Voters) {
+		t := s.Mut[i+1:]
+		if j := strings.Index(t, "from"); j > 0 {
+			if lender, err = strconv.Atoi(t[j+4:]); err != nil {
+				return fmt.Errorf("bad vote mutation %q", s.Mut)
+			}
+			t = t[:j]
+		}
+		if target, err = strconv.Atoi(t); err != nil || target < 0 {
+			return fmt.Errorf("bad vote mutation %q", s.Mut)
+		}
+		if target >= len(c.Voters) || lender >= len(c.Voters) {
 			f.Skip = "no such target voter"
 			return nil
+		}
+		if strings.HasPrefix(mutKind, "borrow") != (lender >= 0) || lender == target {
+			return fmt.Errorf("bad vote mutation %q", s.Mut)
 		}
 	}
 	if s.Mut != "" {
@@ -350,7 +465,27 @@ func (c *Config) build(s Spec, f *Forged) error {
 			list = append(list, entry(m, cr, cr.J, goodPay))
 		}
 	}
-	if target >= 0 {
+	if lender >= 0 {
+		e, skip, err := c.borrowed(mutKind, c.Voters[target], c.Voters[lender], voteIndex, credTV, goodPay)
+		if err != nil {
+			return err
+		}
+		if skip != "" {
+			f.Skip = skip
+			return nil
+		}
+		f.Borrow = &borrowInfo{Borrower: c.Voters[target].Name, Lender: c.Voters[lender].Name, Votes: e.Vote.Votes}
+		for _, o := range list {
+			if o.Signer == c.Voters[lender] {
+				f.Borrow.LenderListed = true
+			}
+		}
+		if strings.HasPrefix(mutKind, "borrowBefore.") {
+			list = append([]listed{e}, list...)
+		} else {
+			list = append(list, e)
+		}
+	} else if target >= 0 {
 		m := c.Voters[target]
 		cr := c.Sortition(m, c.LBSeed, voteIndex, step, credTV, m.Stake)
 		switch mutKind {
@@ -431,6 +566,46 @@ func (c *Config) build(s Spec, f *Forged) error {
 	}
 	f.Header = header
 	return nil
+}
+
+// borrowed: borrower x's precommit entry carrying lender y's sortition proof (see borrowVals).
+func (c *Config) borrowed(kind string, x, y *Member, voteIndex uint32, credTV uint64, goodPay []byte) (e listed, skip string, err error) {
+	i := strings.Index(kind, ".")
+	if i < 0 {
+		return e, "", fmt.Errorf("unknown vote mutation %q", kind)
+	}
+	what, count := kind[:i], kind[i+1:]
+	step, index := uint32(ucon.Precommit), voteIndex
+	switch what {
+	case "borrowAfter", "borrowBefore":
+	case "borrowStep":
+		step = uint32(ucon.Prevote)
+	case "borrowIndex":
+		index = voteIndex + 1
+	default:
+		return e, "", fmt.Errorf("unknown vote mutation %q", kind)
+	}
+	lent := c.Sortition(y, c.LBSeed, index, step, credTV, y.Stake) // the proof bytes of the lender's genuine vote
+	if lent.J == 0 {
+		return e, "the lender has no seat: it casts no vote a proof could be copied from", nil
+	}
+	var votes uint32
+	switch count {
+	case "L":
+		votes = lent.J
+	case "O":
+		votes = c.Sortition(x, c.LBSeed, voteIndex, uint32(ucon.Precommit), credTV, x.Stake).J
+	case "R":
+		// the lender's VRF output evaluated with the borrower's stake (VrfSortition computes the output from the key
+		// and the seat count from the stake it is given)
+		votes = c.Sortition(y, c.LBSeed, index, step, credTV, x.Stake).J
+	default:
+		return e, "", fmt.Errorf("unknown vote mutation %q", kind)
+	}
+	if votes == 0 {
+		return e, "the borrowed credential would declare zero seats", nil
+	}
+	return listed{Vote: ucon.SingleVote{VoterIdx: uint32(x.Index), Votes: votes, Proof: lent.Proof}, Signer: x, Sig: c.BlsSign(x, goodPay), Pay: goodPay}, "", nil
 }
 
 // buildAgg produces the aggregate-signature variant over the listed votes and
